@@ -45,6 +45,7 @@ import (
 	"go/ast"
 	"go/token"
 	"go/types"
+	"os"
 	"sort"
 	"strings"
 
@@ -419,6 +420,9 @@ func main() {
 	out := flag.String("o", "", "write to this file (only if changed) instead of stdout")
 	root := flag.String("repo", "/repo", "root of the Go tree (a scratch worktree for mutation experiments)")
 	flag.Parse()
+	if alt := os.Getenv("VERIF_REPO"); alt != "" && *root == "/repo" {
+		*root = alt
+	}
 	repo = strings.TrimRight(*root, "/") + "/"
 	g := &gen{pkgs: map[string]*lib.Pkg{}, done: map[string][]string{}, bodies: map[string]string{}}
 	var cs []string
